@@ -232,7 +232,31 @@ func permitted(pre *qmodel.Model, op qmodel.Op, oa, ob *qmodel.Obs, sa, sb []qmo
 		// same answer, different dlq-depth prune victim among equal received_at
 		return "dlq-depth-prune-tie"
 	}
+	if pre.Cfg.DLQMaxDepth > 0 && deadTieOverDepth(pre) {
+		// the DLQ is over its depth limit and the candidates for the depth prune contain a tie: the prune that runs
+		// inside this call removes one of several equally old dead rows (memory: map order, i.e. different from run to
+		// run); whether an id of the call still exists, and what a listing shows, follows from that choice. Both
+		// answers were validated against the contract above.
+		return "dlq-depth-prune-tie"
+	}
 	return ""
+}
+
+// deadTieOverDepth: more dead rows than dlq max_depth, two of them equally old.
+func deadTieOverDepth(m *qmodel.Model) bool {
+	seen := map[int64]bool{}
+	n, tie := 0, false
+	for _, it := range m.Items {
+		if it.State != qmodel.Dead {
+			continue
+		}
+		n++
+		if seen[it.ReceivedAt] {
+			tie = true
+		}
+		seen[it.ReceivedAt] = true
+	}
+	return tie && n > m.Cfg.DLQMaxDepth
 }
 
 // knownCause recognises a divergence whose cause is precisely identified (so that a known-findings entry
